@@ -141,7 +141,7 @@ def assign_case(draw, multi_lag=False, methods=ALL_METHODS, max_core=6, min_core
         mns = None if kind is None else obs if kind == "obs" else obs + draw(st.integers(1, 3))
     case = {"trajs": trajs, "sliding": sliding, "trim": trim, "method": method, "max_n_states": mns,
             "how": draw(st.sampled_from(["padded", "ragged"])),
-            "via": draw(st.sampled_from(["fit", "from_assignments"])),
+            "via": draw(st.sampled_from(["fit", "from_assignments", "set_params", "setattr"])),
             "core": sorted(core)}
     if multi_lag:
         case["lags"] = lags
@@ -167,6 +167,17 @@ def fit_msm(case, a, lag):
               sliding_window=case["sliding"], max_n_states=case["max_n_states"])
     if case["via"] == "fit":
         m = MSM(**kw)
+        m.fit(a)
+    elif case["via"] in ("set_params", "setattr"):
+        # the estimator is built with other counting arguments and re-configured before it is fitted (scikit-learn
+        # protocol: set_params / public attributes), e.g. one object scanned over lag times
+        decoy = dict(kw, lag_time=lag + 1, sliding_window=not case["sliding"],
+                     max_n_states=None if case["max_n_states"] is not None else 50)
+        m = MSM(**decoy)
+        if case["via"] == "set_params":
+            m.set_params(lag_time=lag, sliding_window=case["sliding"], max_n_states=case["max_n_states"])
+        else:
+            m.lag_time, m.sliding_window, m.max_n_states = lag, case["sliding"], case["max_n_states"]
         m.fit(a)
     else:
         m = MSM.from_assignments(a, **kw)
